@@ -268,16 +268,22 @@ def check_pair(d1, d2, ck):
         raw = numpy.array(src.values)
         ck.run("polynomial(structured,dtype)", c, lambda: numpoly.polynomial(raw, names=src.names, dtype=d2),
                {(0,): cast, (1,): cast[::-1]}, d2, lab)
-    # a coefficient list mixing dtypes: the polynomial takes the dtype of the first coefficient (or the
-    # requested one) and every other coefficient must be cast like numpy casts it
+    # a coefficient list mixing dtypes composes like numpy.array on the coefficients together: the common
+    # (promoted) dtype, every coefficient cast like numpy casts it - no value may be lost to the dtype of
+    # whichever coefficient happens to come first
     y = data(d2, (3,), 1)
     with warnings.catch_warnings(), numpy.errstate(all="ignore"):
         warnings.simplefilter("ignore")
-        ycast = y.astype(d1)
+        common = numpy.result_type(numpy.dtype(d1), numpy.dtype(d2))
+        xc, yc = x.astype(common), y.astype(common)
     ck.run("polynomial_from_attributes(mixed-list)", c,
-           lambda: numpoly.polynomial_from_attributes([[0], [1]], [x, y]), {(0,): x, (1,): ycast}, d1, lab)
+           lambda: numpoly.polynomial_from_attributes([[0], [1]], [x, y]), {(0,): xc, (1,): yc}, common, lab)
     ck.run("polynomial(dict,mixed)", c,
-           lambda: numpoly.polynomial({(0,): x, (2,): y}), {(0,): x, (2,): ycast}, d1, lab)
+           lambda: numpoly.polynomial({(0,): x, (2,): y}), {(0,): xc, (2,): yc}, common, lab)
+    # coefficients of different (broadcastable) shapes
+    ck.run("polynomial_from_attributes(mixed-shapes)", c,
+           lambda: numpoly.polynomial_from_attributes([[0], [1]], [x[:1], y]),
+           {(0,): numpy.broadcast_to(x[:1], y.shape).astype(common), (1,): yc}, common, lab)
     # joins / selection between dtypes follow numpy's promotion
     px, py = numpoly.polynomial(x), numpoly.polynomial(y)
     if px.dtype == numpy.dtype(d1) and py.dtype == numpy.dtype(d2):
